@@ -226,6 +226,20 @@ def _process_message(self, data):
     return _orig_process_message(self, data)
 
 
+_orig_dispatch_message = A.IkeSaController.dispatch_message
+
+
+def _dispatch_message(self, data, my_addr, peer_addr):
+    """recording only: the table as dispatch_message leaves it (the timer sweep of the same loop pass may tidy it up before
+    the pass ends, which would hide an entry that should never have been there)"""
+    try:
+        return _orig_dispatch_message(self, data, my_addr, peer_addr)
+    finally:
+        w = CUR['world']
+        if w is not None:
+            w.dispatch_tables.append((CUR['ep'].name if CUR['ep'] else None, [(sa, sa.state) for sa in self.ike_sas]))
+
+
 def _check_in_states(self, message, states):
     try:
         return _orig_check_in_states(self, message, states)
@@ -263,6 +277,7 @@ def install():
     A.ikesa.traceback = _Traceback()
     A.ikesa.DiffieHellman = _RecordingDH
     IkeSa.process_message = _process_message
+    A.IkeSaController.dispatch_message = _dispatch_message
     IkeSa._check_in_states = _check_in_states
     IkeSa.process_expire = _process_expire
     IkeSa.process_acquire = _process_acquire
@@ -401,6 +416,7 @@ class World:
         self.sent_log = []
         self.next_id = 0
         self.routing = []
+        self.dispatch_tables = []
         self.event_routing = []
         self.internal_errors = []
         self.state_errors = []
